@@ -363,9 +363,9 @@ def named_bool(it, f, name='npb'):
 
 
 # ------------------------------------------------------------------------------------------ reductions over float arrays
-contract('numpy.nanmin/nanmax', 'nanmin(a)/nanmax(a): NaN when a has no non-NaN element; otherwise a non-NaN element of a that is <= / >= every '
+contract('numpy.nanmin/nanmax', 'nanmin(a)/nanmax(a): ValueError for an empty a; NaN when a has no non-NaN element; otherwise a non-NaN element of a that is <= / >= every '
          'non-NaN element of a')
-contract('numpy.min/max', 'np.min(a)/np.max(a) (a non-empty): NaN when a contains NaN; otherwise an element of a that is <= / >= every element')
+contract('numpy.min/max', 'np.min(a)/np.max(a): ValueError for an empty a; NaN when a contains NaN; otherwise an element of a that is <= / >= every element')
 contract('numpy.nanmedian', 'nanmedian(a): NaN when a has no non-NaN element; otherwise (non-NaN elements all finite) a finite value m with '
          'min <= m <= max over the non-NaN elements (so some element is >= m and some element is <= m)')
 contract('numpy.median', 'median(a) (a non-empty): NaN when a contains NaN, otherwise as nanmedian')
@@ -382,9 +382,8 @@ def _extreme(it, a, which, nan_aware, name):
     use(it, 'numpy.nanmin/nanmax' if nan_aware else 'numpy.min/max')
     if it.pure:
         raise Unsupported('%s in pure mode' % name)
-    if not nan_aware:
-        if not it.truth(total_size(a) > 0):
-            raise PyRaise(it.make_exc('ValueError', ['zero-size array to reduction operation which has no identity']))
+    if not it.truth(zi(total_size(a)) > 0):
+        raise PyRaise(it.make_exc('ValueError', ['zero-size array to reduction operation which has no identity']))
     m = run.fresh(name, X.XReal)
     le = (lambda x: X.le(m, x)) if which == 'min' else (lambda x: X.le(x, m))
     notnan = lambda x: z3.Not(X.is_nan(x))
@@ -639,12 +638,21 @@ def _np_array(it, args, kw):
     return _prev_np_array(it, args, kw)
 
 
+def _np_asarray(it, args, kw):
+    v = args[0]
+    if isinstance(v, NDArray):
+        dt = NP.dtype_arg(kw.get('dtype', args[1] if len(args) > 1 else None)) if (kw.get('dtype') is not None or len(args) > 1) else None
+        if dt in (None, v.dtype):
+            return v                                   # np.asarray of an array of the requested dtype is the SAME object (no copy)
+    return _np_array(it, args, kw)
+
+
 for _pkg in ('numpy', 'jax.numpy'):
     EXTERNAL[_pkg + '.reshape'] = Builtin('np.reshape', _np_reshape)
     EXTERNAL[_pkg + '.zeros'] = Builtin('np.zeros', _np_full(0.0))
     EXTERNAL[_pkg + '.ones'] = Builtin('np.ones', _np_full(1.0))
     EXTERNAL[_pkg + '.array'] = Builtin('np.array', _np_array)
-    EXTERNAL[_pkg + '.asarray'] = Builtin('np.asarray', _np_array)
+    EXTERNAL[_pkg + '.asarray'] = Builtin('np.asarray', _np_asarray)
 
 
 # ------------------------------------------------------------------------------------------ indexing extensions
